@@ -5,6 +5,8 @@ CONSTANTS
   ClearBeforeCopy = TRUE
   CopyThroughSet = FALSE
   AliasedFirstAssignment = FALSE
+  Churn = FALSE
+  StaleReportedCache = FALSE
   UnhookedExtend = FALSE
 SPECIFICATION Spec
 INVARIANT KeepsData
